@@ -878,10 +878,10 @@ def include_family(ctx, prop_id, checks, nontrivial, rule, extra=None, modes=(('
             if got is None:
                 continue
             if got != okval:
-                if sig and key == 'unjustified' and all(final_drop_signature(c, i) for i in got.split(',')) and known_here(prop_id, sig, c):
+                if sig and key == 'unjustified' and all(final_drop_signature(c, i) or final_rematch_signature(c, i) for i in got.split(',')) and known_here(prop_id, sig, c):
                     kf[sig] += 1
                     continue
-                if key == 'unjustified' and all(final_drop_signature(c, i) or up_shadow_signature(c, i) for i in got.split(',')) \
+                if key == 'unjustified' and all(final_drop_signature(c, i) or final_rematch_signature(c, i) or up_shadow_signature(c, i) for i in got.split(',')) \
                         and known_here(prop_id, 'unjustified_upshadow', c) and (known_here(prop_id, sig, c) or all(up_shadow_signature(c, i) for i in got.split(','))):
                     kf['unjustified_upshadow'] += 1
                     continue
@@ -954,6 +954,31 @@ def final_drop_signature(c, fid):
         changed = any(a != b for a, b in rm.items())
         if changed and not (ins & outs):
             return True
+    return False
+
+
+IMPLEMENTS = {10: {5, 6}, 11: {6, 7}, 12: {6}}
+
+
+def final_rematch_signature(c, fid):
+    """F4b, told from the chain instead of from the wording of whyIncluded (which names whoever the failed trial complained
+    about -- the invoke function, say -- not necessarily the consumer): provider `fid` is Loose for an interface I that one of
+    its outputs implements, and a provider listed after it asks for I but is, in the final flow computation, either left out
+    or matched to a concrete type that `fid` does not output.  `fid` was that parameter's candidate while the trials ran."""
+    fs = c.s7_funcs()
+    idx = next((i for i, x in enumerate(fs) if x['id'] == fid), None)
+    if idx is None:
+        return False
+    f = fs[idx]
+    outs = set(ints(f['out']))
+    pl = next((p for p in c.provs if str(p.get('idx')) == str(fid)), None)
+    loose = set(ints(pl.get('loose', '-'))) if pl else set()
+    for g in fs[idx + 1:]:
+        rm = dict(kvp.split('>') for kvp in (g['drm'].split(',') if g['drm'] != '-' else []))
+        for t in ints(g['in']):
+            if t in IMPLEMENTS and t in loose and (IMPLEMENTS[t] & outs):
+                if g['inc'] == '0' or int(rm.get(str(t), t)) not in outs:
+                    return True
     return False
 
 
@@ -1105,6 +1130,15 @@ def c16(ctx):
     def diff_known(c, line):
         # the base chain contains a provider nothing receives from (open C03 findings F4b / F5); deleting the excluded providers makes the
         # include pass drop exactly those: same root, other symptom
+        if 'bind "bind ok" vs "bind err E_INTERNAL' in line:
+            # the pruned list is refused by the FINAL validation ("uh oh #2"): the trials accepted an elimination on the frozen
+            # matching, the final flow computation matches an interface parameter anew and finds no Loose candidate (F19)
+            v2b = next((l for l in c.lines if l.startswith('v2 bind ')), '')
+            if 'uh oh #2' in v2b.replace('_', ' ') and 'has no match for its input parameter' in v2b.replace('_', ' ') \
+                    and any(q.get('loose', '-') != '-' for q in c.provs) \
+                    and any(x in ('10', '11', '12') for pl in c.provs for x in pl.get('in', '').split(',')):
+                return 'prune_rebind_final_validation'
+            return None
         m = re.search(r'included \[([0-9 ]*)\] vs \[([0-9 ]*)\]', line)
         if not m:
             return None
@@ -1122,7 +1156,7 @@ def c16(ctx):
             if any(x in ('10', '11') for x in pl.get('in', '').split(',')) and any(q.get('loose', '-') != '-' for q in c.provs):
                 return 'prune_interface_rematch'
         return None
-    return pair_family(ctx, 'C16', 'prune', 'plain', n, ['prune'], rule, diff_known=diff_known)
+    return pair_family(ctx, 'C16', 'prune', 'plain', n, ['prune'], rule, diff_known=diff_known, corpus_mode='prunefile')
 
 
 @prop('C14')
